@@ -25,7 +25,7 @@ for ln in mine:
     if e.get("op", {}).get("k"):
         keys.add(e["op"]["k"])
 open("/tmp/dd_trace.ndjson", "w").writelines(mine)
-json.dump({"nodes": nodes, "keys": sorted(keys)}, open("/tmp/dd_cfg.json", "w"))
+json.dump({"nodes": nodes, "keys": sorted(keys), "strategy": (sys.argv[3] if len(sys.argv) > 3 else "none")}, open("/tmp/dd_cfg.json", "w"))
 env = dict(os.environ, TRACE="/tmp/dd_trace.ndjson", CFG="/tmp/dd_cfg.json", DEBUG="1",
            JAVA_TOOL_OPTIONS="-Xss1g -Xmx3g -Dtlc2.tool.queue.IStateQueue=StateDeque")
 p = subprocess.run(["tlc", "-workers", "1", "-metadir", "/tmp/dd_meta", "-cleanup", "-noGenerateSpecTE", "-config",
